@@ -255,7 +255,7 @@ def gen_plan(seed, tier, idx):
         sched = {"mode": "seeded", "policy": "opgran", "p_op": rng.choice([0.3, 0.7, 1.0]),
                  "sched_seed": rng.getrandbits(32)}
     else:
-        pol = rng.choice(["bernoulli", "bernoulli", "conflict", "conflict", "sparse"])
+        pol = rng.choice(["bernoulli", "bernoulli", "conflict", "conflict", "sparse", "atomic", "atomic"])
         sched = {"mode": "seeded", "policy": pol, "sched_seed": rng.getrandbits(32)}
         if pol == "bernoulli":
             sched["p"] = rng.choice([0.02, 0.1, 0.3])
@@ -263,6 +263,10 @@ def gen_plan(seed, tier, idx):
         elif pol == "conflict":
             sched["p"] = rng.choice([0.1, 0.3, 0.5])
             sched["p_op"] = rng.choice([0.3, 0.7])
+        elif pol == "atomic":
+            sched["mod"] = rng.choice([12, 25, 40])
+            sched["res"] = rng.randrange(sched["mod"])
+            sched["k"] = rng.choice([1, 1, 2, 3, 5])
         else:
             d = rng.choice([1, 2, 3, 6])
             horizon = sum(lens) * 250
